@@ -1004,7 +1004,7 @@ def run_tree(expr, enc, mode, maxc, maxr, tallies, single=False, stats=None, bot
 
 
 def _task(args):
-    kind, ei, exprs, maxc, maxr, both_focus = args
+    kind, fam, ei, exprs, maxc, maxr, both_focus = args
     enc, mode = ENCODINGS[ei]
     stats = {}
     tallies = {c: Tally() for c in (*CLAUSES, AUX, "d3")}
@@ -1014,7 +1014,7 @@ def _task(args):
             run_tree(e, enc, mode, maxc, maxr, tallies, single=(kind == "d3"), stats=stats, both_focus=both_focus)
 
     _with_encoding(enc, body)
-    return kind, tallies, stats
+    return kind, fam, tallies, stats
 
 
 BIG = ("Pile", "Pile3", "Columns", "Columns3", "Overlay", "Padding", "Filler", "GridFlow", "ListBox", "LineBox", "BarGraph", "Edit")
@@ -1046,11 +1046,11 @@ def _plan(tier, seed):
                 step = 40 if kind == "d1" else 12
                 sz = leaf_sz if kind == "d1" else nest_sz
                 for i in range(0, len(exprs), step):
-                    tasks.append((kind, ei, exprs[i : i + step], *sz, tier != "quick"))
+                    tasks.append((kind, fam, ei, exprs[i : i + step], *sz, tier != "quick"))
         d3 = depth3_sample(enc, mode, tier, seed * 10 + ei, n3)
         counts["d3"] += len(d3)
         for i in range(0, len(d3), 8):
-            tasks.append(("d3", ei, d3[i : i + 8], *nest_sz, tier != "quick"))
+            tasks.append(("d3", "depth3", ei, d3[i : i + 8], *nest_sz, tier != "quick"))
     return tasks, counts, fams, (leaf_sz, nest_sz, n3, stride)
 
 
@@ -1062,11 +1062,22 @@ def run(tier="quick", seed=0):
     ctx = multiprocessing.get_context("fork")
     with ctx.Pool(procs) as pool:
         parts = pool.map(_task, tasks, chunksize=1)
-    total = {c: Tally() for c in (*CLAUSES, AUX, "d3")}
+    # Triage: the clause checks are reported per widget family ("C01/<clause>/<family>", the generator's own families)
+    # instead of one check per clause over all trees.  Nothing in the oracle changes; the runner records one known
+    # finding per check *name* and shows at most 20 failures per check, so with one check per clause a second defect
+    # class in the same clause (a LineBox and a Filler defect are both "render-succeeds") could be neither listed nor
+    # told apart from a new violation hidden behind the first 20.
+    total = {AUX: Tally(), "d3": Tally()}
+    trees_of = {}
     stats = {}
-    for _kind, tallies, st in parts:
+    for (kind, fam, _ei, exprs, *_rest), (_kind, _fam, tallies, st) in zip(tasks, parts):
+        if kind != "d3":
+            trees_of[fam] = trees_of.get(fam, 0) + len(exprs)
         for c, t in tallies.items():
-            total[c].merge(t)
+            key = c if c in (AUX, "d3") else (c, fam)
+            if key not in total:
+                total[key] = Tally()
+            total[key].merge(t)
         for k, v in st.items():
             if isinstance(v, list):
                 stats[k] = (stats.get(k, []) + v)[:5]
@@ -1084,7 +1095,14 @@ def run(tier="quick", seed=0):
         f"fresh widget per evaluation; judged: the {stats.get('wellformed_tree_modes', 0)} (tree, encoding, mode) triples that are well-formed (every child asked only for modes it reports, per urwid's documentation), "
         f"{stats.get('illformed_tree_modes', 0)} reported-but-ill-formed triples go to the auxiliary check; {stats.get('unbuildable', 0)} expressions refused by a constructor and skipped"
     )
-    checks = [MergedCheck(f"C01/{c}", rule, True, bound, total[c], wall).result() for c, rule in CLAUSES.items()]
+    checks = []
+    for c, rule in CLAUSES.items():
+        for fam in sorted(trees_of):
+            t = total.get((c, fam))
+            if t is None or not t.ev:  # e.g. pack-succeeds for a family with fixed sizing only
+                continue
+            fbound = f"family {fam}: {trees_of[fam]} trees (counted per encoding, summed over the three encodings); sizes, focus values and well-formedness filter as in the run's bound"
+            checks.append(MergedCheck(f"C01/{c}/{fam}", rule, True, fbound, t, wall).result())
     checks.append(
         MergedCheck(
             "C01/depth3-sampled",
@@ -1113,7 +1131,7 @@ def replay(check_name, case):
     enc = case["enc"]
     mode = dict(ENCODINGS)[enc]
     size = tuple(case["size"])
-    clause = case.get("clause") or check_name.split("/", 1)[1]
+    clause = case.get("clause") or check_name.split("/")[1]  # "C01/<clause>/<family>"
 
     def body():
         code = compile(case["expr"], "<tree>", "eval")
